@@ -20,7 +20,7 @@ import (
 //	V ::= null | true | false
 //	    | n:<int>                     Go int
 //	    | b:<int>                     *big.Int (whatever its magnitude)
-//	    | f:nan | f:+inf | f:-inf | f:<int>/<nat>   float64, finite ones as the exact rational
+//	    | f:nan | f:+inf | f:-inf | f:<m>p<e>       float64, finite ones exactly as m * 2^e (m odd, or 0p0)
 //	    | s:<hex|->                   string (bytes)
 //	    | S:<len>:<hh>                string of <len> copies of byte <hh>
 //	    | bin:<hex|->/<nbits>/<unit>  interp.Binary
@@ -37,9 +37,18 @@ func tokFloat(f float64) string {
 		return "f:+inf"
 	case math.IsInf(f, -1):
 		return "f:-inf"
+	case f == 0:
+		return "f:0p0"
 	}
-	r := new(big.Rat).SetFloat64(f)
-	return "f:" + r.Num().String() + "/" + r.Denom().String()
+	// exact: odd mantissa times a power of two
+	fr, e := math.Frexp(f) // f = fr * 2^e, 0.5 <= |fr| < 1
+	m := int64(fr * (1 << 53))
+	e -= 53
+	for m%2 == 0 {
+		m /= 2
+		e++
+	}
+	return fmt.Sprintf("f:%dp%d", m, e)
 }
 
 func hexOrDash(b []byte) string {
@@ -142,8 +151,9 @@ var tinyPNG = func() []byte {
 }()
 
 type pval struct {
-	tok string
-	v   any
+	tok  string
+	v    any
+	core bool // member of the 40-value core pool (exhaustive for arity 2 in the thorough tier)
 }
 
 func bigOf(s string) *big.Int {
@@ -191,6 +201,16 @@ func plainPool() []any {
 	}
 }
 
+// values outside the core pool: near-duplicates of a core value's type and sign
+var nonCore = map[string]bool{
+	"n:3": true, "n:64": true, "n:65536": true, "n:2147483648": true, "b:-18446744073709551616": true,
+	"f:-3p-1": true, "f:-inf": true, "s:3130": true, "s:2e": true, "s:746573742e706e67": true,
+	"A(n:255;n:256;n:-1;f:1p-1)": true, "O(a=O(b=O(c=null)))": true,
+	"O(attribute_prefix=n:1;indent=n:-3)": true, "O(indent=s:78)": true, "O(indent=f:nan)": true,
+	"O(keep_range=s:796573;pad_to_units=n:-1;unit=n:8)": true,
+	"O(comma=s:-;comment=s:0a;encoding=n:-1;force=null;name=O();remain_group=n:0)": true,
+}
+
 type poolT struct {
 	vals []pval
 }
@@ -199,12 +219,13 @@ type poolT struct {
 func buildPool(ev *evaluator) poolT {
 	var p poolT
 	for _, v := range plainPool() {
-		p.vals = append(p.vals, pval{tokOf(v), v})
+		t := tokOf(v)
+		p.vals = append(p.vals, pval{tok: t, v: v, core: !nonCore[t]})
 	}
 	p.vals = append(p.vals,
-		pval{tokBinary([]byte{0xff, 0xfe, 0x00}, 24, 8), mkBinary([]byte{0xff, 0xfe, 0x00}, 24, 8)},
-		pval{tokBinary([]byte{0xa8}, 5, 1), mkBinary([]byte{0xa8}, 5, 1)},
-		pval{tokBinary(nil, 0, 8), mkBinary(nil, 0, 8)},
+		pval{tok: tokBinary([]byte{0xff, 0xfe, 0x00}, 24, 8), v: mkBinary([]byte{0xff, 0xfe, 0x00}, 24, 8), core: true},
+		pval{tok: tokBinary([]byte{0xa8}, 5, 1), v: mkBinary([]byte{0xa8}, 5, 1), core: true},
+		pval{tok: tokBinary(nil, 0, 8), v: mkBinary(nil, 0, 8), core: true},
 	)
 	// decode values: evaluated once; tokens carry the plain value they convert to
 	dvs := ev.evalValues(string(tinyPNG), `png | ., .chunks, .chunks[0].length, .chunks[0].type, .signature`)
@@ -226,7 +247,7 @@ func buildPool(ev *evaluator) poolT {
 		default:
 			under = tokOf(jv.JQValueToGoJQ())
 		}
-		p.vals = append(p.vals, pval{"dv:" + names[i] + "=" + under, dv})
+		p.vals = append(p.vals, pval{tok: "dv:" + names[i] + "=" + under, v: dv, core: names[i] != "png_chunks" && names[i] != "png_type"})
 	}
 	return p
 }
